@@ -1589,8 +1589,8 @@ func plan(tier string) []Hist {
 							if sy == "batch" && k < 2 {
 								continue // identical to "each"
 							}
-							if tier != "thorough" && prof == "large" && cp == 7 && k+m > 4 {
-								continue
+							if tier != "thorough" && (prof == "large" && (cp == 7 && k+m > 4 || cd == "v1") || sy == "batch" && k == 2) {
+								continue // quick tier: v1 only with small records, batch sync only with k=3
 							}
 							hs = append(hs, Hist{Mode: "crash", Codec: cd, Profile: prof, Cap: cp, K: k, M: m, Sync: sy})
 						}
@@ -1646,6 +1646,11 @@ func main() {
 			os.Exit(2)
 		}
 		scratch = ev.Scratch("c10")
+		var rl syscall.Rlimit
+		if syscall.Getrlimit(syscall.RLIMIT_NOFILE, &rl) == nil && rl.Cur < rl.Max {
+			rl.Cur = rl.Max
+			_ = syscall.Setrlimit(syscall.RLIMIT_NOFILE, &rl)
+		}
 		t0 := time.Now()
 		if pf := os.Getenv("VERIF_C10_PROFILE"); pf != "" {
 			f, _ := os.Create(pf)
@@ -1831,7 +1836,7 @@ func spawnAll(exe string, job Job) *JobResult {
 		if r.Infra != "" || r.ResumeAt == 0 {
 			return total
 		}
-		if round > 200 {
+		if round > 5000 {
 			total.Infra = "too many resumptions"
 			return total
 		}
